@@ -22,6 +22,7 @@
      findings.d/C05.json). *)
 From Coq Require Import List NArith Bool.
 From SV Require Import Model.Common Model.System Model.SystemAccept Model.SystemOrderCase Model.RecoveryOrder Proofs.RecoveryOrderProofs
+  Model.FeederLoad Proofs.FeederLoadProofs
   Proofs.SystemLists Proofs.SystemProofs Proofs.SystemAlo Proofs.SystemAcceptProofs
   Proofs.SystemOrderLists Proofs.SystemOrder Proofs.SystemOrderTok Proofs.SystemOrderThm Proofs.SystemOrderWitness.
 Import ListNotations.
@@ -141,3 +142,50 @@ Theorem C05_recovery_example :
     rids (r_out s) = [1; 2; 3; 5] /\ rseqs 0 (rtoks (r_out s)) = [0; 1; 2; 3; 4] /\ rpending s = [].
 Proof. exact recovery_example_lemma. Qed.
 Print Assumptions C05_recovery_example.
+
+(* ---------- load failures of spilled chunks in the output feeder (Model/FeederLoad.v) ----------
+   [EFeederLoad _ false] / [RFeederLoadFail] above only say that the chunk leaves the feeder.  Here every load has an
+   outcome chosen by the run (the fault script is part of the event list: any load of a spilled chunk may fail, at any
+   moment, any number of them) and the reaction of the feeder is the parameter [lg_defer]: false = the chunk is given
+   up at once (outputFeeder.loadToOutput / LoadOrDropChunk - the code as it is), true = it is put aside and retried
+   when the queue is momentarily empty (seeded change C05/8).  [lgood clock backlog]: the queue the buffer starts with is
+   in id order and below the id clock (C05_restart_recovery_order); Accept hands out ids above the clock (C11). *)
+
+(* For all backlogs, capacities, interleavings of worker, feeder and consumer and ALL fault scripts: the chunks are
+   handed to the consumer as a sub-sequence of the creation order (loss, never reordering); ids increase in
+   transmission order; the pending chunks are in creation order and each is newer than everything transmitted. *)
+Theorem C05_load_failure_order :
+  forall g backlog clock es s,
+  lg_defer g = false -> lgood clock backlog -> lsteps g (linit backlog clock) es = Some s ->
+  sublist (l_out s) (l_created s) /\ incr (lids (l_out s)) /\ incr (lids (lpending s)) /\
+  (forall u q, In u (lids (l_out s)) -> In q (lids (lpending s)) -> u < q).
+Proof. exact load_failure_order_lemma. Qed.
+Print Assumptions C05_load_failure_order.
+
+(* Every stream whose records were put into chunks in arrival order is handed to the consumer in arrival order,
+   whatever loads fail. *)
+Theorem C05_load_failure_stream_order :
+  forall g backlog clock es s k,
+  lg_defer g = false -> lgood clock backlog -> lsteps g (linit backlog clock) es = Some s ->
+  incr (rseqs k (ltoks (l_created s))) -> incr (rseqs k (ltoks (l_out s))).
+Proof. exact load_failure_stream_order_lemma. Qed.
+Print Assumptions C05_load_failure_stream_order.
+
+(* The variant that retries a failed load behind the chunks queued after it (seeded change C05/8) violates the
+   statement: ids 1,2,3 queued, the read of 2 fails once - transmitted as 1, 3, 2, records 0, 2, 1 of connection 0,
+   nothing lost. *)
+Theorem C05_deferred_load_retry_variant_refuted :
+  exists g backlog clock es s,
+    lg_defer g = true /\ lgood clock backlog /\ lsteps g (linit backlog clock) es = Some s /\
+    lids (l_out s) = [1; 3; 2] /\ l_dropped s = [] /\ ~ incr (lids (l_out s)) /\ ~ incr (rseqs 0 (ltoks (l_out s))).
+Proof. exact defer_variant_refuted_lemma. Qed.
+Print Assumptions C05_deferred_load_retry_variant_refuted.
+
+(* Non-vacuity: the same fault script on the code as it is - chunk 2 is lost, 1 and 3 are transmitted in order and the
+   feeder has nothing left to come back to. *)
+Theorem C05_load_failure_example :
+  exists s, lgood 3 defer_backlog /\ lsteps (LCFG 8 1 false) (linit defer_backlog 3) (firstn 8 defer_events) = Some s /\
+    lids (l_out s) = [1; 3] /\ lids (l_dropped s) = [2] /\ lpending s = [] /\
+    lsteps (LCFG 8 1 false) s [LTake] = None.
+Proof. exact load_failure_example_lemma. Qed.
+Print Assumptions C05_load_failure_example.
